@@ -491,7 +491,7 @@ func (in *Instance) GenesisFromState(s M) types.GenesisState {
 		Pauser: t.AddrString(gets(s, "pauser")), TokenController: t.AddrString(gets(s, "tokCtl")),
 		BurningAndMintingPaused:           &types.BurningAndMintingPaused{Paused: s["pausedBM"].(bool)},
 		SendingAndReceivingMessagesPaused: &types.SendingAndReceivingMessagesPaused{Paused: s["pausedSR"].(bool)},
-		MaxMessageBodySize:                &types.MaxMessageBodySize{Amount: uint64(geti(s, "maxBody"))},
+		MaxMessageBodySize:                &types.MaxMessageBodySize{Amount: SizeVal(geti(s, "maxBody"))},
 		NextAvailableNonce:                &types.Nonce{Nonce: t.Nonce(geti(s, "nextNonce"))},
 		SignatureThreshold:                &types.SignatureThreshold{Amount: ThresholdVal(geti(s, "threshold"))},
 	}
